@@ -38,7 +38,7 @@ var objectReadOps = []string{"Get", "TypeOf", "KeyExists", "Count", "String", "F
 	"NativeDict", "Contains", "KeyOf", "Map", "MapValues", "MapInts", "ForEach", "ForEachInt", "ForEachAsync", "MapAsync", "GetTF", "TypeOfTF", "Empty"}
 
 func GenC15(t *rapid.T) *C15Case {
-	c := &C15Case{Object: drawInt(t, 0, 2, "obj") == 0, Procs: []int{1, 2, 4, 16}[drawIdx(t, 4, "procs")], Mixed: drawBool(t, "mixed")}
+	c := &C15Case{Object: oneIn(t, 3, "obj"), Procs: []int{1, 2, 4, 16}[drawIdx(t, 4, "procs")], Mixed: drawBool(t, "mixed")}
 	switch pick(t, "sub", 40, 25, 35) {
 	case 0:
 		c.Sub = "foreach"
